@@ -45,7 +45,8 @@ def gen_case(seed, run, tier):
     maxcoef = rs.choice([1, 2, 3, 4, 6])
     enabled = set(["scale", "add", "sub"])
     for name, p in (("neg", 0.7), ("combo", 0.6), ("eliminate", 0.7), ("as_reactions", 0.4),
-                    ("eq", 0.3), ("cancel", 0.3), ("zero", 0.4), ("selfsub", 0.4), ("set_param", 0.5), ("peek", 0.5)):
+                    ("eq", 0.3), ("cancel", 0.3), ("zero", 0.4), ("selfsub", 0.4), ("set_param", 0.5), ("peek", 0.5),
+                    ("dontcheck", 0.3), ("set_none", 0.25)):
         if rs.random() < p:
             enabled.add(name)
     nops = rs.randint(3, 45 if deep else 25)
@@ -79,7 +80,7 @@ def gen_case(seed, run, tier):
     ops = []
     kinds = sorted(enabled)
     weights = {"scale": 5, "add": 5, "sub": 5, "neg": 2, "combo": 3, "eliminate": 3, "as_reactions": 1,
-               "eq": 1, "cancel": 1, "zero": 1, "selfsub": 1, "set_param": 2, "peek": 2}
+               "eq": 1, "cancel": 1, "zero": 1, "selfsub": 1, "set_param": 2, "peek": 2, "dontcheck": 1, "set_none": 1}
     spare = [q for q in PRIMES + [41, 43, 47, 53, 59, 61, 67, 71] if q not in primes]
     for oid in range(nops):
         kind = rw.choices(kinds, [weights[k] for k in kinds])[0]
@@ -125,6 +126,10 @@ def gen_case(seed, run, tier):
             op.update(which=rw.choice(["kf", "kb"]), val=rw.choice([1, 3, 10, 7]), units=(const_kind == "fraction" and rw.random() < 0.4))
         elif kind == "peek":
             op.update(key=rw.choice(species + ["Zz"]), side=rw.choice(["reac", "prod"]))
+        elif kind == "dontcheck":
+            op.update(which=rw.choice(["any_effect", "all_positive", "all_integral"]))
+        elif kind == "set_none":
+            op.update(op="set_param", prime=None)
         elif kind == "set_param":
             if not spare:
                 continue
@@ -208,9 +213,22 @@ def execute(case):
         pool["b%d" % i] = [e, model.unit(i), _snap(e), model.const(model.unit(i))]
 
     def kpow(k, n):
-        return k ** int(n)
+        return None if k is None else k ** int(n)
+
+    def kmul(*ks):
+        """Product of expected constants; 'MIXED' when some but not all are None (chempy cannot multiply those)."""
+        if all(k is None for k in ks):
+            return None
+        if any(k is None for k in ks):
+            return "MIXED"
+        r = ks[0]
+        for k in ks[1:]:
+            r = r * k
+        return r
 
     def kequal(observed, expected):
+        if expected is None or observed is None:
+            return expected is None and observed is None
         if ck == "symbol":
             import sympy
 
@@ -292,18 +310,18 @@ def execute(case):
             fn = lambda: -A[0]
         elif kind == "add":
             res_vec = model.add(A[1], B[1])
-            res_k = A[3] * B[3]
+            res_k = kmul(A[3], B[3])
             netted = True
             fn = lambda: A[0] + B[0]
         elif kind == "sub":
             res_vec = model.add(A[1], model.scale(B[1], -1))
-            res_k = A[3] * kpow(B[3], -1)
+            res_k = kmul(A[3], kpow(B[3], -1))
             netted = True
             fn = lambda: A[0] - B[0]
         elif kind == "combo":
             inter = model.add(model.scale(A[1], op["n"]), model.scale(B[1], op["m"]))
             res_vec = model.add(inter, model.scale(C[1], -1))
-            res_k = kpow(A[3], op["n"]) * kpow(B[3], op["m"]) * kpow(C[3], -1)
+            res_k = kmul(kpow(A[3], op["n"]), kpow(B[3], op["m"]), kpow(C[3], -1))
             netted = True
             fn = lambda: op["n"] * A[0] + op["m"] * B[0] - C[0]
             if not model.net(inter):  # the intermediate sum has no net effect: refusal is legitimate
@@ -322,7 +340,9 @@ def execute(case):
             except Exception as ex:
                 rec["outcome"] = "raise:" + core.exc_tag(ex)
                 bump("refused")
-                if exp_net:
+                if exp_net and res_k == "MIXED":
+                    bump("fault_fired:refused_mixed_none_constant")
+                elif exp_net:
                     viols.append(core.violation("refused_valid", "%s raised %s although the result has net effect %s" % (kind, core.exc_tag(ex), sorted(exp_net.items())), {"op": kind, "exc": core.exc_tag(ex)}, idx))
                 else:
                     bump("fault_fired:refused_zero_net")
@@ -335,6 +355,9 @@ def execute(case):
                 rec["outcome"] = "returned:" + type(out).__name__
                 hist.append(rec)
                 continue
+            if res_k == "MIXED":
+                viols.append(core.violation("const_mismatch", "%s of an equilibrium with a constant and one without returned constant %r instead of refusing" % (kind, out.param), {"op": kind, "mixed_none": True}, idx))
+                res_k = out.param
             ok = check_obj(out, res_vec, kind, idx, netted, kexp=res_k)
             check_untouched(idx, kind)
             rec["outcome"] = "ok" if ok else "bad"
@@ -390,16 +413,20 @@ def execute(case):
                 hist.append(rec)
                 continue
             exp_net = model.net(res_vec)
+            mixed = kmul(kpow(A[3], m1), kpow(B[3], m2)) == "MIXED"
             try:
                 out = mult[0] * A[0] + mult[1] * B[0]
             except Exception as ex:
                 rec["outcome"] = "combine_raise:" + core.exc_tag(ex)
-                if exp_net:
+                if exp_net and not mixed:
                     viols.append(core.violation("refused_valid", "combination after eliminate raised %s" % core.exc_tag(ex), {"op": "eliminate_combine", "exc": core.exc_tag(ex)}, idx))
                 check_untouched(idx, kind)
                 hist.append(rec)
                 continue
-            res_k = kpow(A[3], m1) * kpow(B[3], m2)
+            res_k = kmul(kpow(A[3], m1), kpow(B[3], m2))
+            if mixed:
+                viols.append(core.violation("const_mismatch", "combination of an equilibrium with a constant and one without returned constant %r instead of refusing" % (out.param,), {"op": "eliminate_combine", "mixed_none": True}, idx))
+                res_k = out.param
             ok = check_obj(out, res_vec, "eliminate_combine", idx, True, kexp=res_k)
             if key in out.reac or key in out.prod:
                 viols.append(core.violation("eliminate_wrong", "combination still contains %s" % key, sig, idx))
@@ -409,6 +436,18 @@ def execute(case):
             rec["result"] = _show(out)
             if max(abs(x) for x in res_vec) <= CBOUND:
                 pool[rid] = [out, res_vec, _snap(out), res_k]
+            hist.append(rec)
+            continue
+        if kind == "dontcheck":
+            # an unrelated construction that uses the (legal, rarely used) dont_check option: must leave no trace
+            try:
+                Equilibrium(dict(A[0].reac), dict(A[0].prod), A[0].param, dont_check={op["which"]})
+                rec["outcome"] = "ok"
+            except Exception as ex:
+                rec["outcome"] = "raise:" + core.exc_tag(ex)
+            check_untouched(idx, kind)
+            bump("op:dontcheck")
+            states.add(("dontcheck", op["which"]))
             hist.append(rec)
             continue
         if kind == "peek":
@@ -428,7 +467,9 @@ def execute(case):
         if kind == "set_param":
             # the user assigns a new constant to a live object (objects are mutable): later expressions must use it,
             # earlier results must keep theirs
-            if ck == "symbol":
+            if op["prime"] is None:
+                newk = None
+            elif ck == "symbol":
                 import sympy
 
                 newk = sympy.Symbol("Q%d" % op["prime"], positive=True)
@@ -445,6 +486,10 @@ def execute(case):
             rec["outcome"] = "ok"
             bump("op:set_param")
             states.add(("set_param", "ok", op["a"].startswith("b")))
+            hist.append(rec)
+            continue
+        if kind == "as_reactions" and A[3] is None:
+            rec["outcome"] = "skipped:no_constant"
             hist.append(rec)
             continue
         if kind == "as_reactions" and op.get("units"):
@@ -606,7 +651,7 @@ def shrink(case, still_fails):
 
 
 def is_trivial_state(s):
-    return s[1] in ("refused", "raise") or s[0] in ("eq", "cancel", "peek")
+    return s[1] in ("refused", "raise") or s[0] in ("eq", "cancel", "peek", "dontcheck")
 
 
 def describe():
